@@ -1,0 +1,144 @@
+//! Verification hooks for deterministic simulation (feature `iggy_verif`, off by default).
+//!
+//! Nothing here changes behaviour unless a [`SimRuntime`] has been installed on the current
+//! thread with [`install`]: without one every shim falls through to the real `tokio`.
+//! The executor, scheduler, PRNG, fault plans and models live outside this repository; this
+//! module is only the call-out seam (`spawn`, yield points, file-system faults/events, clock,
+//! transport) plus a drop-in `tokio` facade (`verif::tokio`) that modules opt into with
+//! `use iggy::verif::tokio;`.
+
+use std::cell::RefCell;
+use std::future::Future;
+use std::io;
+use std::net::SocketAddr;
+use std::path::{Path, PathBuf};
+use std::pin::Pin;
+use std::rc::Rc;
+use std::task::{Context, Poll};
+
+pub mod fs;
+pub mod task;
+
+/// A drop-in facade for the `tokio` crate: everything is re-exported from the real crate,
+/// except `spawn`, `task` and `fs`, which consult the installed [`SimRuntime`].
+pub mod tokio {
+    pub use super::fs;
+    pub use super::task;
+    pub use super::task::spawn;
+    pub use ::tokio::*;
+}
+
+/// File-system operation kinds the simulator can intercept.
+#[derive(Debug, Clone, Copy, PartialEq, Eq, Hash)]
+pub enum FsOp {
+    Open,
+    Write,
+    Read,
+    Sync,
+    Metadata,
+    SetLen,
+    Remove,
+    RemoveDir,
+    CreateDir,
+    Rename,
+    ReadDir,
+}
+
+/// What the simulator wants an intercepted file operation to do.
+#[derive(Debug, Clone, PartialEq, Eq)]
+pub enum FsFault {
+    /// Perform the operation normally.
+    None,
+    /// Fail before doing anything.
+    Error(io::ErrorKind),
+    /// (writes only) accept at most this many bytes, report them as written.
+    Short(usize),
+    /// (writes only) write this many bytes, then fail.
+    TornThenError(usize, io::ErrorKind),
+}
+
+/// A file-system mutation that has been performed (appended to the run's mutation log).
+#[derive(Debug, Clone)]
+pub enum FsEvent {
+    Create { path: PathBuf },
+    Write { path: PathBuf, offset: u64, data: Vec<u8> },
+    SetLen { path: PathBuf, len: u64 },
+    Rename { from: PathBuf, to: PathBuf },
+    Unlink { path: PathBuf },
+    Mkdir { path: PathBuf },
+    RemoveDirAll { path: PathBuf },
+    Sync { path: PathBuf },
+}
+
+pub type SimStream = ::tokio::io::DuplexStream;
+
+/// The simulator side of the seam. One instance per run, installed per thread.
+pub trait SimRuntime {
+    /// Take ownership of a spawned task.
+    fn spawn(&self, name: &'static str, future: Pin<Box<dyn Future<Output = ()>>>);
+    /// Should the caller give up the CPU at this site? (seeded decision)
+    fn should_yield(&self, site: &'static str) -> bool;
+    /// Simulated wall clock, microseconds since the UNIX epoch.
+    fn now_micros(&self) -> u64;
+    /// Fault decision for a file operation about to be performed.
+    fn fs_fault(&self, op: FsOp, path: &Path, len: usize) -> FsFault;
+    /// A file mutation has been performed.
+    fn fs_event(&self, event: FsEvent);
+    /// A client wants a connection to `address`: `(stream, local, remote)`.
+    fn connect(&self, address: &str) -> io::Result<(SimStream, SocketAddr, SocketAddr)>;
+    /// The simulated process is dying: destructors must not spawn or touch files.
+    fn is_dead(&self) -> bool;
+}
+
+thread_local! {
+    static RUNTIME: RefCell<Option<Rc<dyn SimRuntime>>> = const { RefCell::new(None) };
+}
+
+/// Installs (or removes) the simulator for the current thread.
+pub fn install(runtime: Option<Rc<dyn SimRuntime>>) {
+    RUNTIME.with(|r| *r.borrow_mut() = runtime);
+}
+
+pub fn runtime() -> Option<Rc<dyn SimRuntime>> {
+    RUNTIME.try_with(|r| r.borrow().clone()).ok().flatten()
+}
+
+pub fn is_installed() -> bool {
+    runtime().is_some()
+}
+
+pub fn now_micros() -> Option<u64> {
+    runtime().map(|r| r.now_micros())
+}
+
+pub fn connect(address: &str) -> Option<io::Result<(SimStream, SocketAddr, SocketAddr)>> {
+    runtime().map(|r| r.connect(address))
+}
+
+/// A future that returns `Pending` once (after waking itself) when the simulator says so.
+pub struct YieldPoint {
+    site: &'static str,
+    asked: bool,
+}
+
+impl Future for YieldPoint {
+    type Output = ();
+    fn poll(mut self: Pin<&mut Self>, cx: &mut Context<'_>) -> Poll<()> {
+        if self.asked {
+            return Poll::Ready(());
+        }
+        self.asked = true;
+        match runtime() {
+            Some(rt) if rt.should_yield(self.site) => {
+                cx.waker().wake_by_ref();
+                Poll::Pending
+            }
+            _ => Poll::Ready(()),
+        }
+    }
+}
+
+/// An awaitable no-op that lets a seeded scheduler run something else here.
+pub fn yield_point(site: &'static str) -> YieldPoint {
+    YieldPoint { site, asked: false }
+}
